@@ -32,6 +32,10 @@ type bounds struct {
 }
 
 func boundsFor(h *hz.H) bounds {
+	if os.Getenv("VERIF_LITE") != "" {
+		// C12's battery over the generated corpus: every <=1-slot value, representative pairs
+		return bounds{top: enum.Boundary, maxDepth: 1, full: 1, reps: 2}
+	}
 	if h.Prop == "C10" {
 		// every value is paired with its variants and pushed through four text codecs: one slot less than C01
 		if h.Thorough() {
